@@ -72,10 +72,12 @@ type Service struct {
 	variants map[string]*Variant
 	fresh    int
 	qevSeq   int
+	// everSilent: names with at least one silent mutation in this history
+	everSilent map[string]bool
 }
 
 func newService(defs []ResDef) *Service {
-	s := &Service{defs: map[string]*ResDef{}, variants: map[string]*Variant{}}
+	s := &Service{defs: map[string]*ResDef{}, variants: map[string]*Variant{}, everSilent: map[string]bool{}}
 	for i := range defs {
 		d := defs[i]
 		s.defs[d.Name] = &d
